@@ -20,7 +20,7 @@ EXPLANATION = (
     'no captured stdout and a path without one stores it, hence the plugin\'s "nothing ran" <=> the native all-parts-skipped; run()\'s own '
     'pytest.skip is edge-dominated by mode == "pytest". R5 the plugin skips disabled doctests before running them and the two disable-pattern '
     'lists differ exactly by the entries added on the pytest branch. pytest\'s own reporting is not decided.'
-    " R2b environment defaults are keyed by the option name before the front-end prefix is applied. R4 also over iterations that absorbed an expected exception. R5 both modes apply the disable patterns with the same flags and method (abstract evaluation of strings, lists and compiled patterns). R7 the graceful-exit handler names pytest's Skipped.")
+    " R2b environment defaults are keyed by the option name before the front-end prefix is applied. R4 also over iterations that absorbed an expected exception. R5 both modes apply the disable patterns with the same flags and method (abstract evaluation of strings, lists and compiled patterns). R7 the graceful-exit handler names pytest's Skipped. R9 the default verbosities of the front ends select the same kind of sys.stdout replacement (FINITE-EVAL of the suppression switch).")
 DECIDES = ['TABLE-AGREE one collector', 'TABLE-AGREE one option table', 'PAIRING record <=> raise', 'skip predicate coincidence', 'disabled doctests']
 NOT_DECIDED = ['pytest\'s and the native runner\'s output formats', 'exit-code plumbing inside pytest']
 
@@ -32,7 +32,7 @@ CFGCLS = 'xdoctest.doctest_example.DoctestConfig'
 
 
 def run(ctx):
-    for fn in (r1_one_collector, r2_one_option_table, r3_record_iff_raise, r4_skip_predicates, r5_disabled, r5b_disable_marker_anchored, r3b_raise_only_after_record, r6_exit_status, r2b_environment_defaults_are_front_end_independent, r7_pytest_skip_is_a_graceful_exit, r8_definite_assignment):
+    for fn in (r1_one_collector, r2_one_option_table, r3_record_iff_raise, r4_skip_predicates, r5_disabled, r5b_disable_marker_anchored, r3b_raise_only_after_record, r6_exit_status, r2b_environment_defaults_are_front_end_independent, r7_pytest_skip_is_a_graceful_exit, r8_definite_assignment, r9_default_stream_kind):
         ctx.rep.rule(fn, ctx)
 
 
@@ -496,6 +496,88 @@ def r8_definite_assignment(ctx):
     definite_assignment(ctx, 'C15.R8', {'xdoctest.plugin', 'xdoctest.__main__'}, 8)
 
 
+def r9_default_stream_kind(ctx):
+    """what a doctest sees as sys.stdout while it runs depends on the verbosity: DocTest.run installs a capturing stream WITHOUT the real stream
+    behind it when `_suppressed_stdout` is true (no fileno(), encoding, buffer).  The default verbosities of the front ends -- the fallback of the
+    shared option table (native CLI), the default the plugin hands to that table, and the default of the doctest_module API -- are folded and put
+    through that expression (FINITE-EVAL): they must select the same kind of stream, otherwise a doctest that touches the stream passes under
+    one front end and fails under the other with no option given"""
+    rep = ctx.rep
+    rr = run_roles(ctx)
+    exprs = []
+    for n in rr.g.nodes:
+        if n.kind == 'stmt' and not n.dup and isinstance(n.ast, ast.Assign) and any(is_self_attr(t, '_suppressed_stdout') for t in n.ast.targets):
+            exprs.append(n.ast.value)
+    rep.floor('C15.R9', 'stores of the stream-suppression switch in DocTest.run', len(exprs), 1)
+
+    def ev(e, v):
+        if isinstance(e, ast.Constant):
+            return e.value
+        if isinstance(e, ast.Name) and e.id == 'verbose':
+            return v
+        if isinstance(e, ast.UnaryOp) and isinstance(e.op, ast.Not):
+            return not ev(e.operand, v)
+        if isinstance(e, ast.UnaryOp) and isinstance(e.op, ast.USub):
+            return -ev(e.operand, v)
+        if isinstance(e, ast.BoolOp):
+            vs = [bool(ev(x, v)) for x in e.values]
+            return all(vs) if isinstance(e.op, ast.And) else any(vs)
+        if isinstance(e, ast.Compare) and len(e.ops) == 1:
+            l, r = ev(e.left, v), ev(e.comparators[0], v)
+            table = {ast.Gt: lambda: l > r, ast.GtE: lambda: l >= r, ast.Lt: lambda: l < r, ast.LtE: lambda: l <= r, ast.Eq: lambda: l == r, ast.NotEq: lambda: l != r}
+            if type(e.ops[0]) in table:
+                return table[type(e.ops[0])]()
+        raise AnalysisError('C15.R9: the stream-suppression switch is not a comparison of the verbosity: %s' % ast.unparse(e))
+    defaults = []
+    # (a) fallback of the shared table
+    UAC = CFGCLS + '._update_argparse_cli'
+    f = ctx.func(UAC)
+    for x in ast.walk(f.node):
+        if isinstance(x, ast.Call) and isinstance(x.func, ast.Attribute) and x.func.attr == 'get' and len(x.args) == 2 and isinstance(x.args[0], ast.Constant) \
+                and x.args[0].value == 'verbose' and isinstance(x.args[1], ast.Constant) and isinstance(x.args[1].value, int):
+            defaults.append(('native command line (fallback of the option table)', x.args[1].value, ctx.loc(f, x)))
+    table_fallback = defaults[0][1] if defaults else None
+    # (b) what the plugin hands to the table
+    pf = ctx.func('xdoctest.plugin.pytest_addoption')
+    for (n, c) in _calls_to(ctx, pf, UAC):
+        kw = {k.arg: k.value for k in c.keywords}
+        d = kw.get('defaults')
+        val = None
+        if d is None:
+            val = table_fallback
+        elif isinstance(d, ast.Call) and isinstance(d.func, ast.Name) and d.func.id == 'dict' and not d.args:
+            kv = {k.arg: k.value for k in d.keywords}
+            val = kv['verbose'].value if 'verbose' in kv and isinstance(kv['verbose'], ast.Constant) else (table_fallback if 'verbose' not in kv else None)
+        elif isinstance(d, ast.Dict):
+            kv = {k.value: v for (k, v) in zip(d.keys, d.values) if isinstance(k, ast.Constant)}
+            val = kv['verbose'].value if 'verbose' in kv and isinstance(kv['verbose'], ast.Constant) else (table_fallback if 'verbose' not in kv else None)
+        need(isinstance(val, int), 'C15.R9: the default verbosity of the plugin is not a literal')
+        defaults.append(('pytest plugin', val, ctx.loc(pf, c)))
+    # (c) the doctest_module API without a verbose argument and without flags
+    cf = ctx.func('xdoctest.runner._parse_commandline')
+    cg = ctx.cfg(cf)
+    cdom = ctx.dom(cg, cg.entry)
+    for n in cg.nodes:
+        if n.kind == 'stmt' and not n.dup and isinstance(n.ast, ast.Assign) and any(is_name(t, 'verbose') for t in n.ast.targets) and isinstance(n.ast.value, (ast.Constant, ast.UnaryOp)):
+            facts = [fa for fa in graph.guard_facts(cdom, n) if isinstance(fa.expr, ast.Compare) and isinstance(fa.expr.ops[0], (ast.In, ast.NotIn))]
+            flagged = any((fa.polarity is True) == isinstance(fa.expr.ops[0], ast.In) for fa in facts)
+            if facts and not flagged:
+                try:
+                    defaults.append(('doctest_module() without flags', ast.literal_eval(n.ast.value), ctx.loc(cf, n.ast)))
+                except ValueError:
+                    pass
+    rep.floor('C15.R9', 'default verbosities of the front ends', len(defaults), 3)
+    for e in exprs:
+        kinds = [(who, v, bool(ev(e, v)), loc) for (who, v, loc) in defaults]
+        ok = len({k for (_w, _v, k, _l) in kinds}) == 1
+        odd = [x for x in kinds if x[2] != kinds[0][2]]
+        rep.ob('C15.R9', odd[0][3] if odd else kinds[0][3], '%s over default verbosities %s' % (ast.unparse(e), [(w, v) for (w, v, _k, _l) in kinds]), ok,
+               'every front end installs the same kind of stream by default' if ok else
+               'with no verbosity option the %s runs doctests at verbosity %d where `%s` is %s, the %s at %d where it is %s: one front end installs a capturing stream with the real '
+               'stream behind it, the other a bare buffer (no fileno(), encoding or buffer), so a doctest that touches sys.stdout beyond print() passes under one and fails under the other' %
+               (odd[0][0], odd[0][1], ast.unparse(e), odd[0][2], kinds[0][0], kinds[0][1], kinds[0][2]) if odd else '', anchor=RUN)
+
+
 # ---------------------------------------------------------------------------
 from ..selftest import fire, silent      # noqa: E402
 
@@ -504,6 +586,9 @@ RN = 'xdoctest/runner.py'
 DE = 'xdoctest/doctest_example.py'
 MA = 'xdoctest/__main__.py'
 VARIANTS = [
+    fire('plugin-default-verbosity-suppresses-the-stream', 'C15.R9', (PL, "        defaults=dict(verbose=2)\n", "        defaults=dict(verbose=1)\n")),
+    silent('plugin-default-verbosity-three', (PL, "        defaults=dict(verbose=2)\n", "        defaults=dict(verbose=3)\n")),
+    fire('suppression-threshold-moved', 'C15.R9', (DE, "        self._suppressed_stdout = verbose <= 1\n", "        self._suppressed_stdout = verbose <= 2\n")),
     fire('items-only-through-the-old-pytest-api', 'C15.R1', ('xdoctest/plugin.py', "                yield XDoctestItem.from_parent(\n                    self, name=name, dtest=dtest)\n            else:\n                # direct construction is deprecated\n                yield XDoctestItem(name, self, dtest=dtest)\n", "                XDoctestItem.from_parent(\n                    self, name=name, dtest=dtest)\n            else:\n                # direct construction is deprecated\n                yield XDoctestItem(name, self, dtest=dtest)\n", 2)),
     fire('anything-ran-always-true', 'C15.R4', (DE, "        return len(self.logged_stdout) > 0\n", "        return len(self.logged_stdout) >= 0\n")),
     fire('pytest-skip-escapes-the-native-run', 'C15.R7', (DE, "                except (exceptions.ExitTestException,\n                        exceptions._pytest.outcomes.Skipped) as ex:\n", "                except exceptions.ExitTestException as ex:\n")),
